@@ -62,6 +62,7 @@ type Run struct {
 	findings   []Finding
 	notes      []string
 	broken     []string // machinery failures
+	OnlySig    string   // --replay of a stored violation: only this signature counts
 }
 
 func NewRun(id string) *Run {
@@ -172,6 +173,9 @@ func (r *Run) Broken(format string, a ...any) {
 func (r *Run) Mismatch(sig, what string, replay any) {
 	r.mu.Lock()
 	defer r.mu.Unlock()
+	if r.OnlySig != "" && sig != r.OnlySig {
+		return
+	}
 	if f, ok := r.isOpen(sig); ok {
 		r.knownHit[sig]++
 		if r.knownHit[sig] == 1 {
